@@ -227,7 +227,7 @@ def run(res):
         if o["viol"]:
             res.violation(*o["viol"])
         res.nontrivial |= o["keys"]
-    n = 150 if quick else 3000
+    n = 150 if quick else 15000
     for o in pmap(check_case, [(exe, wd, res.seed, k) for k in range(n)]):
         res.evaluations += 1
         res.count("check_messages_examined", o["events"])
